@@ -334,6 +334,42 @@ pub fn judge_frame(ctx: &mut Ctx, frame: &[u8], which: Which) -> Option<Message>
     Some(d)
 }
 
+/// text-bearing messages built through the public `From<&str>` conversions of the string types
+/// (the value-tree route goes through Deserialize instead)
+fn typed_text_messages(ctx: &mut Ctx, rng: &mut Rng, which: Which) {
+    use crate::gen::strings;
+    use rtcm_rs::msg::{Msg1007T, Msg1029T, Msg1033T};
+    use rtcm_rs::util::{ArrayString, Df88591String};
+    let s = match rng.below(3) {
+        0 => strings::straddle_string(rng, 255),
+        1 => strings::hostile_string(rng),
+        _ => strings::random_string(rng),
+    };
+    let built = guard(|| {
+        let mut v: Vec<Message> = Vec::new();
+        let mut t = Msg1029T::default();
+        t.text_str = ArrayString::<255>::from(s.as_str());
+        v.push(Message::Msg1029(t));
+        let mut t = Msg1007T::default();
+        t.antenna_descriptor_str = Df88591String::<31>::from(s.as_str());
+        v.push(Message::Msg1007(t));
+        let mut t = Msg1033T::default();
+        t.receiver_type_descriptor_str = Df88591String::<31>::from(s.as_str());
+        t.antenna_serial_number_str = s.chars().rev().collect();
+        v.push(Message::Msg1033(t));
+        v
+    });
+    match built {
+        Ok(ms) => {
+            for m in ms.iter() {
+                ctx.count("typed_text_messages");
+                judge_message(ctx, m, which, "typed_text");
+            }
+        }
+        Err(_) => ctx.count("string_conversion_panics_left_to_C17"),
+    }
+}
+
 /// messages without a wire form
 fn no_wire_form(ctx: &mut Ctx, rng: &mut Rng, which: Which) {
     let ms = [Message::Empty, Message::Corrupt, Message::MsgNotSupported(rtcm_rs::msg::message::MsgNotSupportedT { message_number: rng.below(4096) as u16 })];
@@ -360,6 +396,9 @@ pub fn run(p: &Params, which: Which) -> Outcome {
             if ctx.saturated() {
                 ctx.count("stopped_early_after_20000_violations");
                 break;
+            }
+            if i % 6 == 1 {
+                typed_text_messages(ctx, &mut rng, which);
             }
             let n = nums[((i as usize) * nw + w) % nn];
             let frame = if rng.chance(2, 5) {
